@@ -121,8 +121,9 @@ Definition cstep (c : cluster) (a : action) : result cluster :=
       match aget i (c_nodes c) with
       | Some cn =>
           if cn_up cn then
-            let cnt := cn_cnt cn + 1 in
-            let cn1 := mkCnode (cn_node cn) true cnt (cn_inbox cn) (cn_pending cn) in
+            (* listener.on_tick: the payload carries the current counter, which is then incremented (first TICK: 0) *)
+            let cnt := cn_cnt cn in
+            let cn1 := mkCnode (cn_node cn) true (cnt + 1) (cn_inbox cn) (cn_pending cn) in
             match apply_step c i cn1 (LocalTick cnt now orcs) with
             | Crash k => Crash k
             | Ok c1 =>
